@@ -303,6 +303,18 @@ where
     }
 }
 
+/// Verification hook (feature `verif-hooks`): run the protocol detection step on its own and
+/// return whether the HTTP/2 preface was seen, together with the rewound stream.
+#[cfg(feature = "verif-hooks")]
+#[doc(hidden)]
+pub async fn verif_read_version<I>(io: I) -> io::Result<(bool, Rewind<I>)>
+where
+    I: Read + Unpin,
+{
+    let (version, rewind) = ReadVersion::new(io).await?;
+    Ok((matches!(version, HttpProtocol::Http2), rewind))
+}
+
 #[cfg(test)]
 mod tests {
 
